@@ -11,7 +11,8 @@ CALLBACKS = ["csvdump", "unspentcsvdump", "balances", "simplestats", "opreturn"]
 RULE = ("bounded-exhaustive over chain length T+1 blocks and every accepted (--start,--end) combination, each run with all five "
         "callbacks; plus sampled windows at heights up to 5,000,000 over sparse indexes. Per run: H1 delivery log checked against "
         "the trace spec (start(s); deliver s..min(e,T) ascending exactly once; complete(last)), every output compared with the "
-        "reference model of the slice, file names checked, ranged csvdump compared with the slice of the whole-chain run. "
+        "reference model of the slice, file names checked, ranged csvdump compared with the slice of the whole-chain run; a third of "
+        "the directories are out-of-order multi-file layouts, a third are partial copies whose out-of-range blk files are missing. "
         "distinct = (T, start-kind, end-kind, callback, base-height class) signatures")
 
 
@@ -74,6 +75,7 @@ def case(spec):
     # for base > 0 the first block (base-1) is only the predecessor record; heights base..base+T are "the chain"
     chain = chain_all
     d = os.path.join(work, "d")
+    partial_removed = 0
     if spec.get("n", 0) % 3 == 1 and len(chain_all) >= 3:
         # range handling must not depend on which blk file holds a height: out-of-order multi-file layout
         from .. import layouts
@@ -81,9 +83,21 @@ def case(spec):
         kw, _desc, _ = layouts.make_layout(lrng, chain_all, coin, assign=lrng.choice(["random", "round_robin", "reversed"]), nfiles=lrng.randint(2, 4),
                                            file_order=lrng.choice(["asc", "shuffled"]))
         datadir.write_datadir(d, COINS[coin], **kw)
+    elif spec.get("n", 0) % 3 == 2 and (s is not None or e is not None) and len(chain_all) >= 2 and model.in_range(chain_all, s or 0, e):
+        # partial copy / pruned node: the blk files that hold only blocks OUTSIDE the range are missing (the index still names them,
+        # the record of height start-1 included). Blocks outside the range never contribute, so nothing may depend on their files.
+        from .. import layouts
+        lrng = random.Random("C02partial|%s" % spec["n"])
+        kw, _desc, pl_index = layouts.make_layout(lrng, chain_all, coin, assign="one_per_file")
+        datadir.write_datadir(d, COINS[coin], **kw)
+        wanted = set(h for h, _ in model.in_range(chain_all, s or 0, e))
+        for i, (h, _b) in enumerate(chain_all):
+            if h not in wanted:
+                os.unlink(os.path.join(d, kw["names"][pl_index[i].file]))
+                partial_removed += 1
     else:
         datadir.write_datadir(d, COINS[coin], harness.simple_layout(chain_all))
-    v, shapes, counters = [], [], {}
+    v, shapes, counters = [], [], {"files_of_out_of_range_blocks_removed": partial_removed}
     S = 0 if s is None else s
     tip = chain[-1][0]
     skind = "none" if s is None else ("0" if s == chain[0][0] else ("tip" if s == tip else ("above" if s > tip else "mid")))
@@ -107,7 +121,7 @@ def case(spec):
         if cbname == "csvdump":
             bad = oracles.check_csvdump(p, dump, chain, coin, S, e)
             # metamorphic: slice of the whole-chain run (only where the whole chain starts at 0)
-            if base == 0 and not bad and model.in_range(chain, S, e):
+            if base == 0 and not bad and not partial_removed and model.in_range(chain, S, e):
                 dump2 = harness.fresh(os.path.join(work, "o2"))
                 p2 = harness.run_cb(binary, d, coin, "csvdump", dump2)
                 counters["runs"] += 1
